@@ -385,7 +385,7 @@ def _scan_coverage(prog, rep, rid, f, bb, best):
         if c is None or b in loops[first] or b in loops[second]:
             continue
         for a in cond_atoms(c, True):
-            if len(a) == 5 and a[0] == ">=" and a[1] == "i" and a[2].endswith("->ns"):
+            if len(a) == 5 and a[0] == "<=" and a[2] == "i" and a[1].endswith("->ns"):
                 eos = b
     if eos is None:
         rep.fail(rid, "next_evmux/end-only-when-all-null", f.loc(), "no `i >= ns` test guards the end-of-stream return")
@@ -489,8 +489,8 @@ def _capacity_vars(f, arr):
             continue
         for truth in (True,):
             for a in cond_atoms(c, truth):
-                if len(a) == 5 and a[0] in (">=", "<") and a[1] in idxs:
-                    r = strip_casts(a[4])
+                if len(a) == 5 and ((a[0] == "<" and a[1] in idxs) or (a[0] == "<=" and a[2] in idxs)):
+                    r = strip_casts(a[4] if a[0] == "<" else a[3])
                     if r.get("k") == "ref" and r.get("dk") == "local":
                         # a capacity is a local that is also assigned in the function (allocz = 16, allocz *= 2)
                         caps.add(r["n"])
